@@ -438,7 +438,8 @@ func (r *ChunkReader) findRootNode() error {
 		return nil
 	}
 
-	return errInvalidInputMissingRootNode
+	r.err = errInvalidInputMissingRootNode
+	return r.err
 }
 
 func (r *ChunkReader) tryRootNode(arity uint8, fromEnd bool) (found bool, ioErr error) {
